@@ -14,7 +14,7 @@ after all of its operands. -/
 theorem c20_top_sort_inputs_first {c : Circuit} (h : WFU c) :
     ∃ order, c.topSort true = .ok order ∧ order.Perm c.labels ∧
       ∀ pre l post, order = pre ++ l :: post → ∀ g ∈ c.gates, g.label = l → ∀ o ∈ g.ops, o ∈ pre :=
-  topSort_inv_spec h
+  topSort_inv_spec h.toWFG
 
 /-- `top_sort(inverse=False)`: every gate exactly once, each after all of its users — hence before
 all of its operands. -/
@@ -22,7 +22,7 @@ theorem c20_top_sort_outputs_first {c : Circuit} (h : WFU c) :
     ∃ order, c.topSort false = .ok order ∧ order.Perm c.labels ∧
       (∀ pre l post, order = pre ++ l :: post → ∀ u ∈ c.usersOf l, u ∈ pre) ∧
       (∀ pre l post, order = pre ++ l :: post → ∀ g ∈ c.gates, g.label = l → ∀ o ∈ g.ops, o ∈ post) := by
-  obtain ⟨order, h1, h2, h3⟩ := topSort_dir_spec h
+  obtain ⟨order, h1, h2, h3⟩ := topSort_dir_spec h.toWFG
   refine ⟨order, h1, h2, h3, ?_⟩
   intro pre l post hs g hg hgl o ho
   -- `o` occurs somewhere in the order; if it were before `l`, `l` (a user of `o`) would have to
